@@ -213,6 +213,18 @@ func c10Inputs(c *core.Ctx) []c10Input {
 		{0xdc, 0xff, 0xff},
 		{0xde, 0xff, 0xff},
 	}
+	// deep nesting (fuel of the model's recursion = termination argument of the Go recursion)
+	for _, depth := range []int{3, 4, 10, 40, 200} {
+		a := bytes.Repeat([]byte{0x91}, depth)
+		hostile = append(hostile, append(append([]byte{}, a...), 0x01), a)
+		var m []byte
+		for i := 0; i < depth; i++ {
+			m = append(m, 0x81, 0xa1, 'k')
+		}
+		hostile = append(hostile, append(append([]byte{}, m...), 0xc0), m)
+		hostile = append(hostile, append(append([]byte{0x94, 0xa1, 't', 0x05}, a...), 0x01, 0xc0))
+		hostile = append(hostile, append(append([]byte{0x94, 0xa1, 't', 0x05}, m...), 0xc0, 0xc0))
+	}
 	for _, h := range hostile {
 		ins = append(ins, c10Input{"hostile", h})
 	}
